@@ -172,6 +172,14 @@ package router
 //@   requires hdr != nil
 //@   callsite close notify-closed-only-for-a-plucked-state [C13]: !has(h.active, hdr.PingID)
 
+// An announcement names the origin's switch label of ONE link (msg.ReturnLabel = label of the link to `peer`): it must
+// go out on that link only, or its receivers build routes whose last hop carries another link's label.
+// (The clause below FAILS on the current code: Send hands the frame to sendPingMsg with dst = all routers and no peer,
+// which broadcasts it on every link - see /verif/KNOWN_FINDINGS.txt, C09 "announcement built for one link is sent on all".)
+//@ func AnnouncePingHandler.Send
+//@   option clausesonly noinv
+//@   callsite Router.sendPingMsg announcement-built-for-one-link-goes-only-to-that-link [C09]: arg1.peer == peer
+
 // ---- gossip (C08, C09) -----------------------------------------------------------------------------------
 // The context every hop signs: origin address | origin timestamp | origin signature (the frame's 64 auth bytes).
 //@ func AnnouncePingHandler.signingContext
